@@ -27,8 +27,9 @@ XDG = SIM_ROOT + '/xdgcache'
 TMP = SIM_ROOT + '/tmp'
 GIRA = SIM_ROOT + '/gir/a'
 GIRB = SIM_ROOT + '/gir/b'
-SOURCES = {'A': GIRA + '/Dep-1.0.gir', 'B': GIRB + '/Dep-1.0.gir', 'BASE': GIRA + '/Base-1.0.gir'}
-SRC_KEYS = ['A', 'B', 'BASE']
+SOURCES = {'A': GIRA + '/Dep-1.0.gir', 'B': GIRB + '/Dep-1.0.gir', 'BASE': GIRA + '/Base-1.0.gir',
+           'BASEB': GIRB + '/Base-1.0.gir'}
+SRC_KEYS = ['A', 'B', 'BASE', 'BASEB']
 STAMP = '.cache-version'
 
 
@@ -38,8 +39,8 @@ STAMP = '.cache-version'
 # ---------------------------------------------------------------------------------------
 
 def gir_text(key, k, ntypes, include_base):
-    ns = 'Base' if key == 'BASE' else 'Dep'
-    tag = {'A': 'a', 'B': 'b', 'BASE': 'base'}[key]
+    ns = 'Base' if key in ('BASE', 'BASEB') else 'Dep'
+    tag = {'A': 'a', 'B': 'b', 'BASE': 'base', 'BASEB': 'baseb'}[key]
     out = ['<?xml version="1.0"?>',
            '<repository version="1.2" xmlns="http://www.gtk.org/introspection/core/1.0" '
            'xmlns:c="http://www.gtk.org/introspection/c/1.0" '
@@ -217,6 +218,11 @@ def gen_workload(rng, cfg, thorough):
                     ops.append(['newstore'])
             if rng.random() < 0.08:
                 ops.insert(0, ['nocache'])       # this process runs with GI_SCANNER_DISABLE_CACHE set
+            if rng.random() < 0.2:
+                # this scanner searches directory b before directory a (another project's
+                # --add-include-path): Dep's include of Base must resolve by ITS search path,
+                # whatever an earlier process with another search path left in the cache
+                ops.insert(0, ['incpath', 'ba'])
             procs.append(ops)
         ep = {'env': env, 'procs': procs}
         if cfg['family'] == 'midmod':
@@ -828,10 +834,16 @@ class CacheSim(object):
                 # Base is parsed once per Transformer; it must equal some version current
                 # since this process started (sources only change at quiescent points)
                 first_seq = min(r['begin_seq'] for r in self.ops if r['slot'] == p.slot)
-                ok_versions = self.versions_current_during('BASE', first_seq, rec['end_seq'])
-                if got not in [self.version_digest[('BASE', k)] for k in ok_versions]:
+                bkey = 'BASEB' if getattr(p, 'incpath', [GIRA])[0] == GIRB else 'BASE'
+                # a Base file this process loaded by name earlier stays registered (first wins)
+                keys = {bkey} | {r['op'][1] for r in self.ops if r['slot'] == p.slot and r is not rec
+                                 and r['op'][0] == 'parse_include' and r['op'][1] in ('BASE', 'BASEB')}
+                allowed = [self.version_digest[(k2, k)] for k2 in keys
+                           for k in self.versions_current_during(k2, first_seq, rec['end_seq'])]
+                if got not in allowed:
                     self.violate('O1', 'O1@parse_include:nested-include', {
-                        'op': rec['op'], 'include': 'Base', 'current_version': self.cur_version['BASE']})
+                        'op': rec['op'], 'include': 'Base', 'expected_file': SOURCES[bkey],
+                        'current_version': self.cur_version[bkey]})
 
     def _check_discard(self, p, rec, key, opened, evs):
         """O4: a broken entry that is fresh by the code's own criterion, and that nobody else
@@ -884,13 +896,17 @@ class CacheSim(object):
             from giscanner import transformer as gtrans
             from giscanner.girparser import GIRParser
             ops_ = list(ops)
-            if ops_ and ops_[0][0] == 'nocache':
-                p.environ['GI_SCANNER_DISABLE_CACHE'] = '1'
+            p.incpath = [GIRA]
+            while ops_ and ops_[0][0] in ('nocache', 'incpath'):
+                if ops_[0][0] == 'nocache':
+                    p.environ['GI_SCANNER_DISABLE_CACHE'] = '1'
+                else:
+                    p.incpath = [GIRB, GIRA]
                 ops_.pop(0)
             rec = sim.op_begin(p, ['construct'])
             try:
                 T = gtrans.Transformer(gast.Namespace('Main', '1.0'))
-                T.set_include_paths([GIRA])
+                T.set_include_paths(p.incpath)
             except (Killed, SeamGap):
                 raise
             except BaseException as e:
